@@ -156,6 +156,7 @@ type c02Case struct {
 	Chunks  []int
 	PadFF   bool
 	Second  bool // a second unit of the same PID follows (flush by PUSI) or not (flush at EOF)
+	Before  bool // a larger unit of the same PID comes first (state left behind by an earlier unit)
 }
 
 // buildC02 builds the stream for a case and returns it with the index of the packet that holds
@@ -186,6 +187,16 @@ func buildC02(k *unitKind, cs c02Case, seed int64) (st *Stream, finalPkt int, ok
 		exp[0] = up.Exp
 	}
 	cc := uint8(14)
+	if cs.Before {
+		var ub SUnit
+		if k.PSI {
+			ub = k.Make(60, 0) // the same sections behind a long pointer field: the unit announces a larger size
+		} else {
+			ub = PESUnit(u.PID, u.Exp[0].StreamID, pesPayload(98, 900, seed), 76, u.Exp[0].StreamID != 0xe0)
+		}
+		ps = append(ps, Packetize(ub, nil, &cc, true)...)
+		exp[u.PID] = append(exp[u.PID], ub.Exp...)
+	}
 	first := len(ps)
 	// clamp chunk requests to the room of each packet; 0 = greedy
 	up := Packetize(u, cs.Chunks, &cc, cs.PadFF)
@@ -233,7 +244,11 @@ func (c *countingReader) Read(p []byte) (int, error) {
 
 // runC02 demuxes the stream; for early (PAT/PMT) kinds also checks the read position when the
 // first datum of the unit under test is returned.
-func runC02(k *unitKind, st *Stream, finalPkt int) (sig, msg string) {
+func runC02(k *unitKind, st *Stream, finalPkt int, skip ...int) (sig, msg string) {
+	toSkip := 0
+	if len(skip) > 0 {
+		toSkip = skip[0]
+	}
 	cr := &countingReader{r: bytes.NewReader(st.Bytes)}
 	d := astits.NewDemuxer(context.Background(), cr, astits.DemuxerOptPacketSize(188))
 	out := &DmxOut{}
@@ -250,7 +265,9 @@ func runC02(k *unitKind, st *Stream, finalPkt int) (sig, msg string) {
 			x, err := d.NextData()
 			if err == nil {
 				out.Data = append(out.Data, x)
-				if k.Early && !posChecked && x.PID == pidUnder {
+				if k.Early && !posChecked && x.PID == pidUnder && toSkip > 0 {
+					toSkip--
+				} else if k.Early && !posChecked && x.PID == pidUnder {
 					posChecked = true
 					if want := 188 * (finalPkt + 1); cr.n != want {
 						sig, msg = "psi-read-ahead", fmt.Sprintf("first datum of the %s unit returned with the reader at offset %d; its final packet ends at %d", k.Name, cr.n, want)
@@ -312,13 +329,21 @@ func checkC02(c *mc.Ctx) {
 						if pad && !k.PSI {
 							continue
 						}
-						addCase(ki, c02Case{k.Name, ptr, tr, nil, pad, second})
+						addCase(ki, c02Case{k.Name, ptr, tr, nil, pad, second, false})
 						// one deviation: packet i carries only cbytes
 						for i := 0; i < n; i++ {
 							for cb := 1; cb <= 183; cb++ {
 								ch := make([]int, i+1)
 								ch[i] = cb
-								addCase(ki, c02Case{k.Name, ptr, tr, ch, pad, second})
+								addCase(ki, c02Case{k.Name, ptr, tr, ch, pad, second, false})
+							}
+						}
+						// the first packet's deviations again behind a larger unit of the same PID
+						if ptr == 0 && tr == 0 {
+							for cb := 1; cb <= 183; cb++ {
+								cs := c02Case{k.Name, ptr, tr, []int{cb}, pad, second, false}
+								cs.Before = true
+								addCase(ki, cs)
 							}
 						}
 						// two deviations over the small alphabet
@@ -329,7 +354,7 @@ func checkC02(c *mc.Ctx) {
 										for _, b := range small {
 											ch := make([]int, j+1)
 											ch[i], ch[j] = a, b
-											addCase(ki, c02Case{k.Name, ptr, tr, ch, pad, second})
+											addCase(ki, c02Case{k.Name, ptr, tr, ch, pad, second, false})
 										}
 									}
 								}
@@ -350,7 +375,12 @@ func checkC02(c *mc.Ctx) {
 			c.Ev.Class("outside-wellformed-domain", 1)
 			return
 		}
-		sig, msg := runC02(k, st, fin)
+		skipN := 0
+		if cs.Before {
+			skipN = len(k.Make(60, 0).Exp)
+			c.Ev.Class("unit-behind-a-larger-unit", 1)
+		}
+		sig, msg := runC02(k, st, fin, skipN)
 		if sig != "" {
 			c.Rep.Report(sig+":"+k.Name, map[string]any{"kind": "stream", "case": cs, "bytes": mc.Hex(st.Bytes), "message": msg})
 		}
@@ -375,7 +405,7 @@ func checkC02(c *mc.Ctx) {
 	c02MultiSectionPAT(c)
 	c02Continuous(c)
 	c02Merges(c)
-	c.Ev.Require("early-psi-position-checked", "flush-at-eof", "one-byte-first-chunk", "multi-pid-merge", "eight-pids-eof-drain", "continuous-sections-without-straddle", "section-straddles-unit-start")
+	c.Ev.Require("early-psi-position-checked", "flush-at-eof", "one-byte-first-chunk", "multi-pid-merge", "eight-pids-eof-drain", "continuous-sections-without-straddle", "section-straddles-unit-start", "unit-behind-a-larger-unit")
 }
 
 // c02Merges: several PIDs, all order-preserving merges; 8 PIDs sequential (EOF drain).
